@@ -1696,6 +1696,9 @@ def _divisions_from_statistics(aggregated_stats, index_name):
     for file_stats in aggregated_stats:
         file_min = file_stats["columns"][col_ix]["statistics"]["min"]
         file_max = file_stats["columns"][col_ix]["statistics"]["max"]
+        if file_min is None or file_max is None:
+            # no statistics (empty file): the divisions are not known
+            return tuple([None] * (len(aggregated_stats) + 1)), None
 
         minmax.append((file_min, file_max))
     divisions = []
@@ -1756,8 +1759,10 @@ def _extract_stats(original):
             for name in col_meta:
                 col_out[name] = col[name]
             col_out["statistics"] = {}
+            # an empty row group (e.g. the file of an empty partition) has none
+            statistics = col["statistics"] or {}
             for name in col_stats:
-                col_out["statistics"][name] = col["statistics"][name]
+                col_out["statistics"][name] = statistics.get(name)
 
     return out
 
